@@ -714,9 +714,28 @@ class Interp(ExprMixin, WhileMixin):
                                shared=getattr(base, "shared_name", None), keyv=idx, valv=v)
             elif isinstance(base, PyList) and isinstance(idx, Const) and isinstance(idx.v, int) and -len(base.items) <= idx.v < len(base.items):
                 base.items[idx.v] = v
-                self.event("mutate", target=_describe(base), op="setitem")
+                own = getattr(base, "created_in", None) is not None
+                self.event("list_mutation" if own else "mutate", target=_describe(base), op="setitem", created_in=getattr(base, "created_in", None),
+                           frame=self._frame_id())
+            elif isinstance(base, AbsList) and getattr(base, "created_in", None) is not None and self.loop_ctx and \
+                    getattr(self.loop_ctx[-1], "enumerate_of", None) is base and len(self._round_tags) == len(self.loop_ctx) and \
+                    ((isinstance(idx, Const) and idx.v == 0) or (isinstance(idx, Sym) and idx.op in ("index", "posindex"))):
+                # xs[i] = f(x) inside `for i, x in enumerate(xs)` on a list of one's own: the element-wise image of xs
+                self.event("list_mutation", target=_describe(base), op="setitem", created_in=base.created_in, frame=self._frame_id())
+                hits = base.__dict__.setdefault("_map_hits", {})
+                if "orig" not in hits:
+                    hits["orig"] = base.elem
+                hits[self._round_tags[-1]] = v
+                if self._round_tags[-1] == 2 and 1 in hits:
+                    base.elem = hits[1] if repr(hits[1]) == repr(v) else AltV([hits[1], v])
+                    if getattr(base, "copy_of", None) is not None:
+                        base.map_of = base.copy_of  # type: ignore[attr-defined]
+                elif self._round_tags[-1] == 2:
+                    base.elem = self.join_vals(hits["orig"], v)
             else:
-                self.event("mutate", target=_describe(base), op="setitem")
+                own = isinstance(base, (PyList, AbsList)) and getattr(base, "created_in", None) is not None
+                self.event("list_mutation" if own else "mutate", target=_describe(base), op="setitem", created_in=getattr(base, "created_in", None),
+                           frame=self._frame_id())
         else:
             raise AnalysisError(f"assignment target {type(target).__name__} unsupported", module.loc(target))
 
@@ -727,6 +746,11 @@ class Interp(ExprMixin, WhileMixin):
         n = len(target.elts)
         has_star = any(isinstance(e, ast.Starred) for e in target.elts)
         v = self.resolve_alt(v)
+        if isinstance(v, ObjV) and v.cls in self.repo.classes and "typing.NamedTuple" in self.repo.mro(v.cls):
+            # a NamedTuple unpacks as the tuple of its fields, in declaration order
+            names = [st.target.id for st in self.repo.classes[v.cls].node.body if isinstance(st, ast.AnnAssign) and isinstance(st.target, ast.Name)]
+            if all(nm in v.attrs for nm in names):
+                v = PyTuple([v.attrs[nm] for nm in names])
         if isinstance(v, PSlice):
             # a, b, c = p : the production's symbols in order
             for i in range(len(v.values)):
@@ -861,8 +885,29 @@ class Interp(ExprMixin, WhileMixin):
                 minlen = it.len_eq
         elif isinstance(it, AbsList):
             elem, minlen, over = it.elem, it.minlen, it
+            src = getattr(it, "enumerate_of", None) or it
+            base = getattr(src, "copy_of", None)
+            if base is not None and isinstance(base, ListV):
+                # a shallow copy (or its enumeration) is empty exactly when the copied list is
+                try:
+                    self._abstract_loop(elem, base.len_eq if base.len_eq is not None else base.minlen, over, body, empty_of=base)
+                except _Break:
+                    self._broke = True
+                return
         elif isinstance(it, MapV):
             elem, minlen, over = it.elem, getattr(it.over, "minlen", 0), it
+            if not getattr(it, "filtered", False):
+                # an unfiltered image of a list is empty exactly when the list is: one fact, one name
+                base = it.over
+                while isinstance(base, MapV) and not getattr(base, "filtered", False):
+                    base = base.over
+                if isinstance(base, (ListV, AbsList)):
+                    try:
+                        self._abstract_loop(elem, self.list_minlen(base) if isinstance(base, AbsList) else (base.len_eq if base.len_eq is not None else base.minlen),
+                                            over, body, empty_of=base)
+                    except _Break:
+                        self._broke = True
+                    return
         elif isinstance(it, PyList):
             # concrete prefix then loop parts
             try:
@@ -892,7 +937,10 @@ class Interp(ExprMixin, WhileMixin):
         except _Break:
             self._broke = True
 
-    def _abstract_loop(self, elem: V, minlen: int, over: V, body: Callable[[V], None], later: Optional[V] = None):
+    def _abstract_loop(self, elem: V, minlen: int, over: V, body: Callable[[V], None], later: Optional[V] = None, empty_of: Optional[V] = None):
+        loop_over = over
+        if empty_of is not None:
+            over = empty_of
         known_zero = isinstance(over, ListV) and over.len_eq == 0
         if known_zero:
             return
@@ -910,6 +958,7 @@ class Interp(ExprMixin, WhileMixin):
                 return
             if isinstance(over, ListV):
                 over.len_neq.add(0)
+        over = loop_over
         self.loop_ctx.append(over)
         try:
             # two rounds so that loop-carried values reach their join
